@@ -61,3 +61,34 @@ func init() {
 		return fmt.Sprintf("NONDETERMINISTIC(%d) %s", len(seen), first)
 	})
 }
+
+func init() {
+	// C13
+	// dedup <alphabet> <rows> <nAsGap>
+	register("dedup", func(a []string) string {
+		al := alFrom(a[1], atoi(a[0]))
+		id, err := al.Deduplicate(atob(a[2]))
+		if err != nil {
+			return "err"
+		}
+		g := make([]string, len(id))
+		for i, grp := range id {
+			g[i] = strings.Join(grp, "+")
+		}
+		// idempotence: a second pass keeps everything and reports singleton groups
+		id2, _ := al.Deduplicate(atob(a[2]))
+		single := true
+		for _, grp := range id2 {
+			if len(grp) != 1 {
+				single = false
+			}
+		}
+		return fmt.Sprintf("ok %d %s %s idem=%s", al.Length(), encRows(rowsOf(al)), strJoin(g), btoa(single && len(id2) == len(id)))
+	})
+	// compress <alphabet> <rows>
+	register("compress", func(a []string) string {
+		al := alFrom(a[1], atoi(a[0]))
+		w := al.Compress()
+		return fmt.Sprintf("%d %s %s", al.Length(), plus(w), encRows(rowsOf(al)))
+	})
+}
